@@ -82,7 +82,8 @@ def _job(i):
     ck0, name, fn, kw = _JOBS[i]
     common.STATS.__init__()
     sub = common.Check(ck0.pid, ck0.tier)
-    run_identities(sub, name, fn, **kw)
+    try: run_identities(sub, name, fn, **kw)
+    except symcore.Inconclusive as e: raise symcore.Inconclusive("%s: %s" % (name, e))
     return sub.export()
 
 def run_parallel(ck, jobs, ncpu=None):
